@@ -10,6 +10,8 @@
 package main
 
 import (
+	"os"
+	"runtime/pprof"
 	"strings"
 
 	"github.com/New-JAMneration/JAM-Protocol/internal/verifacc"
@@ -18,4 +20,11 @@ import (
 
 func run(input string) string { return verifacc.RunC07(strings.Fields(input)) }
 
-func main() { h.Main(verifacc.GenC07, run) }
+func main() {
+	if p := os.Getenv("VERIF_C07_PROF"); p != "" {
+		f, _ := os.Create(p)
+		pprof.StartCPUProfile(f)
+		defer pprof.StopCPUProfile()
+	}
+	h.Main(verifacc.GenC07, run)
+}
